@@ -67,4 +67,198 @@ def mustZipOk {β} (n : Nat) : Option (Arg β) → Bool
   | some (.scalar _) => n = 1
   | some (.many vs) => vs.length = n
 
+/-! ## Extensions (second pass): `NeuronProcessor.__call__` and `map_neuronlist` as written
+
+`NeuronList.apply` calls `proc(self.neurons, **kwargs)`, `map_neuronlist` calls `proc(nl, *args, **kwargs)`:
+the neuron list is itself positional argument 0 and is matched to the neurons by the same
+`len == n ⇒ a[i]` rule as every other argument.  Positions / keywords listed in `exclude_zip` are passed
+whole.  Values are classified by what `utils.is_iterable`, `len()` and `a[i]` do with them. -/
+
+/-- A Python value as the zip rule sees it. -/
+inductive Val (β : Type) where
+  | pyNone                                  -- `None`
+  | atom (v : β)                            -- not iterable for navis: numbers, `str`, `DataFrame`
+  | seq (vs : List β)                       -- list / tuple / ndarray / NeuronList: `len`, positional `[i]`
+  | dict (kvs : List (Nat × β)) (others : Nat)  -- dict: `len` = number of keys, `[i]` = key lookup
+  | unsized                                 -- iterable without `len()` (generator): `len(a)` raises
+  | unindexable (len : Nat)                 -- set: `len()` works, `a[i]` raises
+deriving Repr, DecidableEq
+
+/-- `utils.is_iterable`. -/
+def Val.isIterable {β} : Val β → Bool
+  | .pyNone => false | .atom _ => false | _ => true
+
+/-- `len(a)`; `none` = raises. -/
+def Val.len? {β} : Val β → Option Nat
+  | .seq vs => some vs.length
+  | .dict kvs o => some (kvs.length + o)
+  | .unindexable k => some k
+  | _ => none
+
+/-- `a[i]`; `none` = raises (`KeyError`, `TypeError`, `IndexError`). -/
+def Val.index? {β} : Val β → Nat → Option β
+  | .seq vs, i => vs[i]?
+  | .dict kvs _, i => kvs.lookup i
+  | _, _ => none
+
+/-- The three-way rule of `__call__` for one argument of neuron `i` of `n`; `none` = the call raises
+while the arguments are being parsed (before any neuron is processed, whatever `omit_failures` says). -/
+def parseVal {β} (n i : Nat) (excluded : Bool) (a : Val β) : Option (Val β) :=
+  if excluded then some a
+  else if !a.isIterable then some a
+  else match a.len? with
+    | none => none
+    | some l => if l ≠ n then some a else (a.index? i).map .atom
+
+/-- What one call receives. `first` is positional argument 0: the neuron itself, or — if position 0 were
+excluded from zipping — the whole list. -/
+structure Call (ν β : Type) where
+  first : ν ⊕ List ν
+  args : List (Val β)
+  kwargs : List (String × Val β)
+deriving Repr
+
+/-- positional argument 0 of neuron `i`. -/
+def parseFirst {ν} (nl : List ν) (exclPos : List Nat) (i : Nat) : Option (ν ⊕ List ν) :=
+  if 0 ∈ exclPos then some (.inr nl) else (nl[i]?).map .inl
+
+/-- `parsed_args[i]`, `parsed_kwargs[i]` (positions count from 0 = the neuron list). -/
+def parseCall {ν β} (nl : List ν) (exclPos : List Nat) (exclKw : List String)
+    (args : List (Val β)) (kwargs : List (String × Val β)) (i : Nat) : Option (Call ν β) :=
+  match parseFirst nl exclPos i,
+        (args.zipIdx 1).mapM (fun ak => parseVal nl.length i (decide (ak.2 ∈ exclPos)) ak.1),
+        kwargs.mapM (fun kv => (parseVal nl.length i (decide (kv.1 ∈ exclKw)) kv.2).map fun v' => (kv.1, v')) with
+  | some first, some as, some kws => some ⟨first, as, kws⟩
+  | _, _, _ => none
+
+/-- Ordered runs → result (shared tail of both branches). -/
+def collect {γ} (runs : List (Res γ)) (omitF : Bool) : Option (List γ) :=
+  if omitF then some (runs.filterMap id)
+  else if runs.all Option.isSome then some (runs.filterMap id) else none
+
+/-- `NeuronProcessor.__call__`, serial branch. `f i` is `self.funcs[i]` (one function per neuron, or the
+same function for all).  Outer `none` = the call raises. -/
+def processW {ν β γ} (f : Nat → Call ν β → Res γ) (nl : List ν) (exclPos : List Nat) (exclKw : List String)
+    (args : List (Val β)) (kwargs : List (String × Val β)) (omitF : Bool) : Option (List γ) :=
+  match (List.range nl.length).mapM (parseCall nl exclPos exclKw args kwargs) with
+  | none => none
+  | some calls => collect (calls.zipIdx.map fun p => f p.2 p.1) omitF
+
+/-- … parallel branch: ordered `imap` over `zip(funcs, parsed_args, parsed_kwargs)` with a chunk size. -/
+def processWParallel {ν β γ} (f : Nat → Call ν β → Res γ) (nl : List ν) (exclPos : List Nat) (exclKw : List String)
+    (args : List (Val β)) (kwargs : List (String × Val β)) (omitF : Bool) (cs : Nat) : Option (List γ) :=
+  match (List.range nl.length).mapM (parseCall nl exclPos exclKw args kwargs) with
+  | none => none
+  | some calls => collect (((chunks cs calls.zipIdx).map fun ch => ch.map fun p => f p.2 p.1).flatten) omitF
+
+/-! ### What is returned -/
+
+/-- One result of the mapped function. -/
+inductive Ret (ν γ : Type) where
+  | neuron (x : ν)
+  | neurons (xs : List ν)     -- a NeuronList
+  | nothing                   -- `None`
+  | other (v : γ)
+deriving Repr, DecidableEq
+
+inductive Out (ν γ : Type) where
+  | neuronlist (xs : List ν)  -- `self.nl.__class__(utils.unpack_neurons(res))`
+  | nothing                   -- all results `None`
+  | list (rs : List (Ret ν γ))
+deriving Repr, DecidableEq
+
+def Ret.isNeuron {ν γ} : Ret ν γ → Bool
+  | .neuron _ => true | .neurons _ => true | _ => false
+
+def Ret.isNothing {ν γ} : Ret ν γ → Bool
+  | .nothing => true | _ => false
+
+def Ret.unpack {ν γ} : Ret ν γ → List ν
+  | .neuron x => [x] | .neurons xs => xs | _ => []
+
+/-- The tail of `__call__` (note the order of the tests: an empty result list is an empty NeuronList). -/
+def finish {ν γ} (rs : List (Ret ν γ)) : Out ν γ :=
+  if rs.all Ret.isNeuron then .neuronlist (rs.flatMap Ret.unpack)
+  else if rs.all Ret.isNothing then .nothing
+  else .list rs
+
+/-! ### `map_neuronlist` -/
+
+structure MapCfg where
+  canZip : List String
+  mustZip : List String
+  allowParallel : Bool
+  sigHasInplace : Bool
+  sigInplaceDefault : Bool
+deriving Repr
+
+/-- `len(make_iterable(v))`: scalars and strings become one-element arrays, dicts/sets their keys. -/
+def Val.makeIterableLen {β} : Val β → Option Nat
+  | .pyNone => some 1 | .atom _ => some 1
+  | .seq vs => some vs.length
+  | .dict kvs o => some (kvs.length + o)
+  | .unindexable k => some k
+  | .unsized => none
+
+structure MapPlan where
+  exclPos : List Nat
+  exclKw : List String
+  passed : List String      -- the keywords that reach the function
+  forceInplace : Bool       -- `kwargs["inplace"] = True`
+  swapInplace : Bool        -- `nl.neurons = res.neurons` and `nl` itself is returned
+  omitFailures : Bool
+deriving Repr, DecidableEq
+
+inductive MapErr where
+  | noParallel | canZipLen | mustZipLen | typeError
+deriving Repr, DecidableEq
+
+/-- The wrapper up to the call of the processor, for a NeuronList of `n` neurons, `nargs` further
+positional arguments and the given keywords (`inplaceKw` = truthiness of an explicit `inplace=`,
+`omitKw` of `omit_failures=`). -/
+def mapNeuronlist {β} (cfg : MapCfg) (n nargs : Nat) (kwargs : List (String × Val β)) (parallel : Bool)
+    (inplaceKw : Option Bool) (omitKw : Option Bool) : Except MapErr MapPlan :=
+  if parallel && !cfg.allowParallel then .error .noParallel else
+  -- can_zip: present, not None, iterable ⇒ len must match
+  let canBad := cfg.canZip.filterMap fun p => match kwargs.lookup p with
+    | none => none
+    | some .pyNone => none
+    | some v => if v.isIterable then (match v.len? with
+        | none => some MapErr.typeError
+        | some l => if l ≠ n then some MapErr.canZipLen else none) else none
+  match canBad with
+  | e :: _ => .error e
+  | [] =>
+  let mustBad := cfg.mustZip.filterMap fun p => match kwargs.lookup p with
+    | none => none
+    | some .pyNone => none
+    | some v => match v.makeIterableLen with
+      | none => some MapErr.typeError
+      | some l => if l ≠ n then some MapErr.mustZipLen else none
+  match mustBad with
+  | e :: _ => .error e
+  | [] =>
+  let inplace := match inplaceKw with
+    | some b => b
+    | none => if cfg.sigHasInplace then cfg.sigInplaceDefault else false
+  let force := parallel && cfg.sigHasInplace
+  -- `n_cores`, `chunksize` are popped before `excl` is computed, `progress`, `omit_failures` after
+  let kws := (kwargs.map (·.1)).filter fun k => k != "n_cores" && k != "chunksize"
+  let kws := if force && !kws.contains "inplace" then kws ++ ["inplace"] else kws
+  let exclKw := kws.filter fun k => !cfg.canZip.contains k && !cfg.mustZip.contains k
+  .ok { exclPos := List.range' 1 nargs, exclKw := exclKw,
+        passed := kws.filter fun k => k != "progress" && k != "omit_failures",
+        forceInplace := force, swapInplace := inplace, omitFailures := omitKw.getD false }
+
+/-! ### `map_neuronlist_df` (functions returning one DataFrame per neuron, e.g. `segment_analysis`)
+
+    res = proc(nl, *args, **kwargs)                 # failed runs already filtered out
+    for n, df in zip(nl, res): df.insert(0, column=id_col, value=n.id)
+    df = pd.concat(res, axis=0)                                                        -/
+
+/-- The labelled frames: `(neuron whose id is written into the frame, frame)`; `none` = raises
+(a failing run without `omit_failures`, or `pd.concat([])` when no frame is left). -/
+def mapDfW {ν γ} (f : ν → Res γ) (nl : List ν) (omitF : Bool) : Option (List (ν × γ)) :=
+  (collect (nl.map f) omitF).bind fun res => if res.isEmpty then none else some (nl.zip res)
+
 end Navis.Zip
